@@ -195,7 +195,8 @@ def run_job(job):
     elif kind == 'inlinespell':
         for case in inlinespell.cases_of_job(job):
             r.states += 1
-            if '&' in case[1] and ';' in case[1] or '\\' in case[3].get('dest', '') + case[3].get('title', ''):
+            if ('&' in case[1] and ';' in case[1] or '\\' in case[3].get('dest', '') + case[3].get('title', '')
+                    or (case[0] == 'prefix' and case[3]['prefix'] is None)):
                 r.skip('character reference, or backslash escape in a destination/title (recorded by the property itself, outside the domain)')
                 continue
             for ctx in inlinespell.CONTEXTS:
